@@ -104,7 +104,7 @@ def flat_plain(arr):
     return H.plain(arr)
 
 
-def run_history(shape, hist, p, want_trace=False, ign=False):
+def run_history(shape, hist, p, want_trace=False, ign=False, share=False):
     """Execute a history from scratch; compare with the model after every event.
     Returns dict(problems=[...], state key, trace, raised_at)."""
     H.R.p = p
@@ -115,12 +115,22 @@ def run_history(shape, hist, p, want_trace=False, ign=False):
     problems = []
     raised_at = None
     steps = 0
+    shared = {}
+
+    def secret_index(i):
+        # share=True: one index OBJECT per index value for the whole history (an index variable that the
+        # program computes once and uses for several accesses)
+        if not share:
+            return rt.PrivVal(i)
+        if i not in shared:
+            shared[i] = rt.PrivVal(i)
+        return shared[i]
     if ign:
         rt.ignore_errors(True)
     try:
         for k, e in enumerate(hist):
             iks, idx = e[1], e[2]
-            index = tuple(rt.PrivVal(i) if ik == "S" else i for ik, i in zip(iks, idx))
+            index = tuple(secret_index(i) if ik == "S" else i for ik, i in zip(iks, idx))
             index = index[0] if len(index) == 1 else index
             wv = 7 + k
             m_exc = False
@@ -197,28 +207,45 @@ def _task(t):
         viols[k]["count"] += 1
 
     evs = events(shape, level)
-    seen = set()
-    frontier = [()]
     traces = {}
-    for d in range(depth):
-        nxt = []
-        for hist in frontier:
-            for e in evs:
-                h2 = hist + (e,)
-                r = run_history(shape, h2, p, want_trace=True)
-                st["histories"] += 1
-                st["executions"] += 1
-                st["transitions"] += r["steps"]
-                for klass, k, text in r["problems"]:
-                    report(klass, h2, "event %d: %s" % (k, text))
-                if "state" in r:
-                    g = traces.setdefault(shape_key(h2), {})
-                    g.setdefault(r["trace"], h2)
-                    key = (r["state"], tuple(type(x).__name__ for x in _cells(r["arr"])))
-                    if key not in seen:
-                        seen.add(key)
-                        nxt.append(h2)
-        frontier = nxt
+    seen = set()
+
+    def search(share, depth_, evs_, prune):
+        """Breadth-first over histories.  prune=True merges histories by canonical array contents (sound when
+        every access uses fresh index objects); with shared index objects the access history is hidden state,
+        so nothing is merged."""
+        frontier = [()]
+        for d in range(depth_):
+            nxt = []
+            for hist in frontier:
+                for e in evs_:
+                    h2 = hist + (e,)
+                    r = run_history(shape, h2, p, want_trace=True, share=share)
+                    st["histories"] += 1
+                    st["executions"] += 1
+                    st["transitions"] += r["steps"]
+                    for klass, k, text in r["problems"]:
+                        report(klass + ("/shared-index-objects" if share else ""), h2, "event %d: %s" % (k, text))
+                    if "state" in r:
+                        if not share:       # with shared objects the number of index variables depends on which values coincide
+                            g = traces.setdefault(shape_key(h2), {})
+                            g.setdefault(r["trace"], h2)
+                        key = (r["state"], tuple(type(x).__name__ for x in _cells(r["arr"])))
+                        if not prune:
+                            nxt.append(h2)
+                        elif key not in seen:
+                            seen.add(key)
+                            nxt.append(h2)
+            frontier = nxt
+
+    search(False, depth, evs, True)
+    # shared index objects: in-range events only, no merging, depth 3 (2x2 and 1-D) / 2
+    dims = shape[1]
+    inr = [e for e in evs if all((0 <= i < d_) for i, d_ in zip(e[2], dims)) and not (e[0] == "write" and e[3] == "K")]
+    if len(dims) == 2:
+        inr = [e for e in inr if e[1] in (("S", "S"), ("K", "K"), ("S", "K"))]
+    sdepth = 3 if (len(inr) <= 30 or level >= 1) else 2
+    search(True, sdepth, inr, False)
     st["states"] = len(seen)
     for sk, g in traces.items():
         st["trace_groups"] += 1
